@@ -10,8 +10,10 @@ def sh(cmd, cwd=None, timeout=1800):
     return p.returncode, p.stdout + p.stderr
 
 def main():
-    name, wt, pid = sys.argv[1:4]
-    checks = sys.argv[4:] or [pid]
+    scratch = "--scratch" in sys.argv
+    args = [a for a in sys.argv[1:] if a != "--scratch"]
+    name, wt, pid = args[0:3]
+    checks = args[3:] or [pid]
     seed = os.path.join(wt, "_seed")
     out = os.path.join("/verif/seeded", name)
     os.makedirs(out, exist_ok=True)
@@ -38,6 +40,13 @@ def main():
     if democmd:
         rc, o = sh("REPO=%s timeout 600 %s" % (wt, democmd), cwd=wt)
         rec["demo_without_patch_rc"] = rc
+    if scratch:
+        # the check part in a throw-away worktree (VERIF_REPO), /repo stays untouched
+        json.dump(rec, open(os.path.join(out, "eval.json"), "w"), indent=1)
+        rc, o = sh("python3 /verif/tools/seed_recheck.py --scratch %s" % name, timeout=7200)
+        print(o.strip())
+        print(json.dumps(json.load(open(os.path.join(out, "eval.json"))), indent=1)[:2500])
+        return
     # now the checks, on /repo itself
     rc, o = sh("git -C /repo status --short | grep -v '^??' | head -1")
     if o.strip():
